@@ -1,48 +1,112 @@
-"""Hypothesis strategies for Jaqal programs (Prog), numbers, layouts and overrides.
+"""Generators for Jaqal programs (Prog), numbers, overrides.
 
 Constructive: programs are built valid (names resolve, indices in range, legal nesting, per-name
-gate arity) instead of being filtered.  Every random choice goes through `draw`.
+gate arity) instead of being filtered.
+
+Randomness: Hypothesis draws one 63-bit seed per case (so case count, `@seed(VERIF_SEED)`,
+de-duplication and health checks stay with the library) and the structure is expanded from it
+with a `random.Random(seed)` owned by the case.  Reason (measured, see DESIGN.md section 8):
+for a generator that makes hundreds of draws Hypothesis spends ~10 ms per case and fills the tail
+of about half of all cases with "simplest" choices (zero-extension of a short novel prefix), so
+values drawn late - bodies, histories, layouts, override choices - were minimal in 60-75 % of the
+cases.  Shrinking and replay do not depend on the RNG: the generated case itself (JSON) is what
+the harness shrinks structurally and stores in the replay file.
 """
 
 import math
+import random
+import struct
 from dataclasses import dataclass, field
 
 from hypothesis import strategies as st
 
-from .model import Ref, Invalid, is_int, KEYWORDS
+from .model import Ref, Invalid, is_int, KEYWORDS, empty_prog, walk, all_stmts
 
-# ------------------------------------------------------------------------------ numbers
+SEEDS = st.integers(min_value=0, max_value=2**63 - 1)
 
-_FLOAT_CLASSES = [
-    st.sampled_from([0.25, 0.5, 1.5, -0.75, 3.141592653589793, 0.1, 1.0 / 3.0, 2.718281828459045]),
-    st.sampled_from([2.0, -3.0, 0.0, -0.0, 1.0, 100.0, 1e15]),  # integral
-    st.sampled_from([1e-06, 1e-05, 1e16, 1e22, -1e-07, 1e100, 1e-300, 5e-324, 1e300]),  # exponent, integer mantissa
-    st.sampled_from([1.5e-07, 2.5e-05, -6.02e23, 1.7976931348623157e308, 2.2250738585072014e-308, 4.9e-320]),
-    st.floats(allow_nan=False, allow_infinity=False),
-    st.floats(min_value=-10, max_value=10, allow_nan=False),
-    st.floats(min_value=-1e-3, max_value=1e-3, allow_nan=False),
-]
+# ------------------------------------------------------------------------------ chooser
+
+_F_PLAIN = [0.25, 0.5, 1.5, -0.75, 3.141592653589793, 0.1, 1.0 / 3.0, 2.718281828459045]
+_F_INTEGRAL = [2.0, -3.0, 0.0, -0.0, 1.0, 100.0, 1e15]
+_F_EXP_INT = [1e-06, 1e-05, 1e16, 1e22, -1e-07, 1e100, 1e-300, 5e-324, 1e300]
+_F_EXP_FRAC = [1.5e-07, 2.5e-05, -6.02e23, 1.7976931348623157e308, 2.2250738585072014e-308, 4.9e-320]
+_I_BIG = [2**31, 2**63, 2**64 + 1, -(2**63) - 1, 10**25, -(10**30)]
 
 
-def floats():
-    return st.one_of(*_FLOAT_CLASSES)
+class Chooser:
+    """All random choices of one case; a pure function of the seed."""
 
+    def __init__(self, seed):
+        self.r = random.Random(seed)
 
-def ints():
-    return st.one_of(
-        st.integers(min_value=-5, max_value=12),
-        st.integers(min_value=-(10**6), max_value=10**6),
-        st.sampled_from([2**31, 2**63, 2**64 + 1, -(2**63) - 1, 10**25, -(10**30)]),
-        st.integers(),
-    )
+    def int(self, a, b):
+        return self.r.randint(a, b)
 
+    def bool(self):
+        return self.r.random() < 0.5
 
-def numbers():
-    return st.one_of(ints(), floats())
+    def chance(self, p):
+        return self.r.random() < p
+
+    def pick(self, seq):
+        return seq[self.r.randrange(len(seq))]
+
+    def sample(self, pool, n):
+        return self.r.sample(list(pool), n)
+
+    def perm(self, n):
+        p = list(range(n))
+        self.r.shuffle(p)
+        return p
+
+    def ints(self, n, a, b):
+        return [self.r.randint(a, b) for _ in range(n)]
+
+    def any_float(self):
+        while True:
+            v = struct.unpack("<d", self.r.getrandbits(64).to_bytes(8, "little"))[0]
+            if math.isfinite(v):
+                return v
+
+    def float(self):
+        c = self.r.randrange(8)
+        if c == 0:
+            return self.pick(_F_PLAIN)
+        if c == 1:
+            return self.pick(_F_INTEGRAL)
+        if c == 2:
+            return self.pick(_F_EXP_INT)
+        if c == 3:
+            return self.pick(_F_EXP_FRAC)
+        if c == 4:
+            return self.any_float()
+        if c == 5:
+            return self.r.uniform(-10, 10)
+        if c == 6:
+            return self.r.uniform(-1e-3, 1e-3)
+        return float(self.r.randint(-50, 50)) * 10.0 ** self.r.randint(-30, 30)
+
+    def integer(self):
+        c = self.r.randrange(6)
+        if c < 3:
+            return self.r.randint(-5, 12)
+        if c == 3:
+            return self.r.randint(-(10**6), 10**6)
+        if c == 4:
+            return self.pick(_I_BIG)
+        return self.r.randint(-(2**80), 2**80)
+
+    def number(self):
+        return self.integer() if self.bool() else self.float()
+
+    def small_number(self):
+        if self.r.random() < 0.6:
+            return self.r.randint(-3, 9)
+        return self.pick([0.5, 0.25, 1.5, -0.75, 2.0])
 
 
 def float_class(v):
-    """Which repr class a float literal falls in (used for non-triviality labels)."""
+    """Which repr class a numeric literal falls in (used for non-triviality labels)."""
     if is_int(v):
         return "int-big" if abs(v) >= 2**63 else "int"
     r = repr(v)
@@ -102,15 +166,9 @@ class Scope:
         return name not in self.params
 
 
-def _small_num(draw, cfg):
-    if cfg.general_numbers:
-        return draw(numbers())
-    return draw(st.one_of(st.integers(-3, 9), st.sampled_from([0.5, 0.25, 1.5, -0.75, 2.0])))
-
-
 class Builder:
-    def __init__(self, draw, cfg):
-        self.draw = draw
+    def __init__(self, ch, cfg):
+        self.ch = ch
         self.cfg = cfg
         self.sc = Scope()
         self.stats = {}
@@ -118,52 +176,46 @@ class Builder:
     def flag(self, k):
         self.stats[k] = self.stats.get(k, 0) + 1
 
+    def num(self):
+        return self.ch.number() if self.cfg.general_numbers else self.ch.small_number()
+
     # -- header ---------------------------------------------------------------------
     def header(self, prog):
-        d, cfg, sc = self.draw, self.cfg, self.sc
-        if cfg.usepulses and d(st.integers(0, 3)) == 0:
-            prog["usepulses"] = d(st.lists(st.sampled_from(PULSE_POOL), min_size=1, max_size=2, unique=True))
-        nlets = d(st.integers(0, cfg.max_lets))
-        names = d(st.lists(st.sampled_from(LET_POOL), min_size=nlets, max_size=nlets, unique=True))
-        for n in names:
-            if d(st.integers(0, 9)) < 6:
-                v = d(st.integers(0, 6))
-            else:
-                v = _small_num(d, cfg)
+        ch, cfg, sc = self.ch, self.cfg, self.sc
+        if cfg.usepulses and ch.int(0, 3) == 0:
+            prog["usepulses"] = ch.sample(PULSE_POOL, ch.int(1, 2))
+        for n in ch.sample(LET_POOL, ch.int(0, cfg.max_lets)):
+            v = ch.int(0, 6) if ch.int(0, 9) < 6 else self.num()
             prog["lets"].append([n, v])
-            vv = int(v) if isinstance(v, float) and math.isfinite(v) and v == int(v) else v
-            sc.lets[n] = vv
-        rname = d(st.sampled_from(REG_POOL))
-        size = d(st.integers(1, cfg.max_reg))
+            sc.lets[n] = int(v) if isinstance(v, float) and math.isfinite(v) and v == int(v) else v
+        rname = ch.pick(REG_POOL)
+        size = ch.int(1, cfg.max_reg)
         cands = [n for n, v in sc.lets.items() if is_int(v) and 1 <= v <= cfg.max_reg]
-        if cands and d(st.integers(0, 2)) == 0:
-            ln = d(st.sampled_from(cands))
+        if cands and ch.int(0, 2) == 0:
+            ln = ch.pick(cands)
             prog["reg"] = [rname, ln]
             size = sc.lets[ln]
             self.flag("reg-let-size")
         else:
             prog["reg"] = [rname, size]
         sc.regs[rname] = tuple(range(size))
-        nmaps = d(st.integers(0, cfg.max_maps))
-        mnames = d(st.lists(st.sampled_from(MAP_POOL), min_size=nmaps, max_size=nmaps, unique=True))
         last = rname
-        for mn in mnames:
-            srcs = list(sc.regs)
-            src = last if (last in sc.regs and d(st.booleans())) else d(st.sampled_from(srcs))
+        for mn in ch.sample(MAP_POOL, ch.int(0, cfg.max_maps)):
+            src = last if (last in sc.regs and ch.bool()) else ch.pick(list(sc.regs))
             el = sc.regs[src]
-            form = d(st.sampled_from(["whole", "index", "slice", "slice"]))
+            form = ch.pick(["whole", "index", "slice", "slice"])
             if form == "whole":
                 prog["maps"].append([mn, src, None])
                 sc.regs[mn] = el
             elif form == "index":
-                i = d(st.integers(0, len(el) - 1))
+                i = ch.int(0, len(el) - 1)
                 prog["maps"].append([mn, src, ["i", self.int_spelling(i)]])
                 sc.singles[mn] = el[i]
             else:
                 n = len(el)
-                start = d(st.integers(0, n - 1))
-                step = d(st.integers(1, 3))
-                stop = d(st.integers(start + 1, n))
+                start = ch.int(0, n - 1)
+                step = ch.int(1, 3)
+                stop = ch.int(start + 1, n)
                 new = tuple(el[i] for i in range(start, stop, step))
                 s_start = self.int_spelling(start, default=(start == 0))
                 s_stop = self.int_spelling(stop, default=(stop == n))
@@ -176,17 +228,16 @@ class Builder:
 
     def int_spelling(self, v, default=False):
         """An integer position: literal, a let with that value, or (if allowed) defaulted."""
-        d = self.draw
         opts = ["lit"]
         lets = [n for n, x in self.sc.lets.items() if is_int(x) and x == v and self.sc.visible(n)]
         if lets:
             opts += ["let", "let"]
         if default:
             opts += ["def", "def"]
-        c = d(st.sampled_from(opts))
+        c = self.ch.pick(opts)
         if c == "let":
             self.flag("let-in-int-position")
-            return d(st.sampled_from(lets))
+            return self.ch.pick(lets)
         if c == "def":
             self.flag("defaulted-bound")
             return None
@@ -194,7 +245,7 @@ class Builder:
 
     # -- arguments ------------------------------------------------------------------
     def qubit_arg(self):
-        d, sc = self.draw, self.sc
+        ch, sc = self.ch, self.sc
         opts = []
         regs = [n for n in sc.regs if sc.visible(n)]
         singles = [n for n in sc.singles if sc.visible(n)]
@@ -213,54 +264,52 @@ class Builder:
             opts += ["pi", "pi"]
         if not opts:
             return None
-        c = d(st.sampled_from(opts))
+        c = ch.pick(opts)
         if c == "reg":
-            r = d(st.sampled_from(regs))
-            i = d(st.integers(0, len(sc.regs[r]) - 1))
-            sp = self.int_spelling(i)
-            return ["ix", r, sp]
+            r = ch.pick(regs)
+            i = ch.int(0, len(sc.regs[r]) - 1)
+            return ["ix", r, self.int_spelling(i)]
         if c == "single":
-            return ["id", d(st.sampled_from(singles))]
+            return ["id", ch.pick(singles)]
         if c == "pq":
-            return ["id", d(st.sampled_from(pq))]
+            return ["id", ch.pick(pq)]
         if c == "pr":
-            p = d(st.sampled_from(pr))
-            i = d(st.integers(0, sc.params[p][1] - 1))
+            p = ch.pick(pr)
+            i = ch.int(0, sc.params[p][1] - 1)
             self.flag("param-as-array")
             return ["ix", p, self.int_spelling(i)]
-        p = d(st.sampled_from(pi))
+        p = ch.pick(pi)
         ok = [r for r in regs if len(sc.regs[r]) >= sc.params[p][1]]
         self.flag("param-as-index")
-        return ["ix", d(st.sampled_from(ok)), p]
+        return ["ix", ch.pick(ok), p]
 
     def num_arg(self, integer=False):
-        d, sc = self.draw, self.sc
+        ch, sc = self.ch, self.sc
         opts = ["lit", "lit"]
         lets = [n for n, v in sc.lets.items() if sc.visible(n) and (not integer or is_int(v))]
         if lets:
             opts.append("let")
-        pn = [n for n, (role, _c) in sc.params.items() if role == "num" or (role in ("idx", "count"))]
+        pn = [n for n, (role, _c) in sc.params.items() if role in ("num", "idx", "count")]
         if integer:
             pn = [n for n in pn if sc.params[n][0] in ("idx", "count")]
         if pn:
             opts += ["param", "param"]
-        c = d(st.sampled_from(opts))
+        c = ch.pick(opts)
         if c == "let":
-            return ["id", d(st.sampled_from(lets))]
+            return ["id", ch.pick(lets)]
         if c == "param":
-            return ["id", d(st.sampled_from(pn))]
+            return ["id", ch.pick(pn)]
         if integer:
-            return ["n", d(ints()) if self.cfg.general_numbers else d(st.integers(-3, 9))]
-        v = _small_num(d, self.cfg)
-        return ["n", v]
+            return ["n", ch.integer() if self.cfg.general_numbers else ch.int(-3, 9)]
+        return ["n", self.num()]
 
     def reg_arg(self, minsize=1):
-        d, sc = self.draw, self.sc
+        sc = self.sc
         cands = [n for n, el in sc.regs.items() if sc.visible(n) and len(el) >= minsize]
         cands += [n for n, (role, c) in sc.params.items() if role == "reg" and c >= minsize]
         if not cands:
             return None
-        return ["id", d(st.sampled_from(cands))]
+        return ["id", self.ch.pick(cands)]
 
     def arg_of_kind(self, kind):
         if kind == "q":
@@ -274,7 +323,7 @@ class Builder:
         raise ValueError(kind)
 
     def count(self):
-        d, sc = self.draw, self.sc
+        ch, sc = self.ch, self.sc
         opts = ["lit", "lit"]
         lets = [n for n, v in sc.lets.items() if sc.visible(n) and is_int(v) and 0 <= v <= self.cfg.count_max]
         if lets and self.cfg.let_counts:
@@ -282,30 +331,30 @@ class Builder:
         pc = [n for n, (role, _c) in sc.params.items() if role == "count"]
         if pc:
             opts += ["param", "param"]
-        c = d(st.sampled_from(opts))
+        c = ch.pick(opts)
         if c == "let":
             self.flag("let-count")
-            return d(st.sampled_from(lets))
+            return ch.pick(lets)
         if c == "param":
             self.flag("param-as-count")
-            return d(st.sampled_from(pc))
-        return d(st.integers(0, self.cfg.count_max))
+            return ch.pick(pc)
+        return ch.int(0, self.cfg.count_max)
 
     # -- statements -----------------------------------------------------------------
     def gate_sig(self, name):
-        d, sc, cfg = self.draw, self.sc, self.cfg
+        ch, sc, cfg = self.ch, self.sc, self.cfg
         if cfg.natives is not None:
             return cfg.natives[name]
         if name not in sc.sigs:
             kinds = ["q", "q", "q", "f", "f"] + (["r"] if cfg.reg_args else [])
-            sc.sigs[name] = d(st.lists(st.sampled_from(kinds), min_size=0, max_size=3))
+            sc.sigs[name] = [ch.pick(kinds) for _ in range(ch.int(0, 3))]
         return sc.sigs[name]
 
     def gate_stmt(self, allow_sub_macros):
-        d, sc, cfg = self.draw, self.sc, self.cfg
+        ch, sc, cfg = self.ch, self.sc, self.cfg
         macros = [m for m in sc.macros if allow_sub_macros or not m[2]]
-        if macros and d(st.integers(0, cfg.macro_bias)) == 0:
-            name, roles, _hs = d(st.sampled_from(macros))
+        if macros and ch.int(0, cfg.macro_bias) == 0:
+            name, roles, _hs = ch.pick(macros)
             args = []
             for role, c in roles:
                 a = self.macro_arg(role, c)
@@ -316,7 +365,7 @@ class Builder:
             return ["g", name, args]
         pool = list(cfg.natives) if cfg.natives is not None else GATE_POOL
         pool = [g for g in pool if g not in ("prepare_all", "measure_all")] or pool
-        name = d(st.sampled_from(pool))
+        name = ch.pick(pool)
         args = []
         for k in self.gate_sig(name):
             a = self.arg_of_kind(k)
@@ -326,7 +375,7 @@ class Builder:
         return ["g", name, args]
 
     def macro_arg(self, role, c):
-        d, sc = self.draw, self.sc
+        ch, sc = self.ch, self.sc
         if role == "qubit":
             return self.qubit_arg()
         if role == "num":
@@ -341,12 +390,12 @@ class Builder:
             pi = [n for n, (r2, c2) in sc.params.items() if r2 == "idx" and c2 <= c]
             if pi:
                 opts += ["param", "param"]
-            ch = d(st.sampled_from(opts))
-            if ch == "let":
-                return ["id", d(st.sampled_from(lets))]
-            if ch == "param":
-                return ["id", d(st.sampled_from(pi))]
-            return ["n", d(st.integers(0, c - 1))]
+            k = ch.pick(opts)
+            if k == "let":
+                return ["id", ch.pick(lets)]
+            if k == "param":
+                return ["id", ch.pick(pi)]
+            return ["n", ch.int(0, c - 1)]
         if role == "count":
             x = self.count()
             return ["n", x] if is_int(x) else ["id", x]
@@ -354,10 +403,9 @@ class Builder:
 
     def block_items(self, ctx, depth, in_sub, in_par, n_max):
         """Statements legal inside ctx ('top' | 'seq' | 'par')."""
-        d, cfg = self.draw, self.cfg
-        n = d(st.integers(0, n_max))
+        ch, cfg = self.ch, self.cfg
         out = []
-        for _ in range(n):
+        for _ in range(ch.int(0, n_max)):
             kinds = ["gate", "gate", "gate"]
             if depth < cfg.max_depth:
                 if ctx in ("top", "seq"):
@@ -369,7 +417,7 @@ class Builder:
                         kinds.append("sub")
                 if ctx in ("top", "par"):
                     kinds.append("seq")
-            k = d(st.sampled_from(kinds))
+            k = ch.pick(kinds)
             if k == "gate":
                 s = self.gate_stmt(allow_sub_macros=(not in_sub and not in_par and ctx != "par"))
                 if s is not None:
@@ -382,45 +430,39 @@ class Builder:
                 out.append(["loop", self.count(), self.block(depth + 1, in_sub, in_par)])
             elif k == "sub":
                 cnt = None
-                if d(st.booleans()):
-                    cnt = self.count() if d(st.booleans()) else d(st.integers(0, 200))
+                if ch.bool():
+                    cnt = self.count() if ch.bool() else ch.int(0, 200)
                 out.append(["sub", cnt, self.block_items("seq", depth + 1, True, in_par, cfg.max_block)])
                 self.flag("subcircuit")
         return out
 
     def block(self, depth, in_sub, in_par):
-        d, cfg = self.draw, self.cfg
-        if cfg.par and d(st.integers(0, 3)) == 0:
+        ch, cfg = self.ch, self.cfg
+        if cfg.par and ch.int(0, 3) == 0:
             return ["par", self.block_items("par", depth, in_sub, True, cfg.max_block)]
         return ["seq", self.block_items("seq", depth, in_sub, in_par, cfg.max_block)]
 
     # -- macros ---------------------------------------------------------------------
     def macro(self, prog, name):
-        d, cfg, sc = self.draw, self.cfg, self.sc
-        np_ = d(st.integers(0, 3))
+        ch, cfg, sc = self.ch, self.cfg, self.sc
         header_names = list(sc.lets) + list(sc.regs) + list(sc.singles)
         params, roles = [], []
         maxreg = max(len(el) for el in sc.regs.values())
-        for _ in range(np_):
-            if header_names and d(st.floats(0, 1)) < cfg.shadow:
-                pn = d(st.sampled_from(header_names))
+        for _ in range(ch.int(0, 3)):
+            if header_names and ch.chance(cfg.shadow):
+                pn = ch.pick(header_names)
                 self.flag("param-shadows-header")
             else:
-                pn = d(st.sampled_from(PARAM_POOL))
+                pn = ch.pick(PARAM_POOL)
             if pn in params:
                 continue
-            role = d(st.sampled_from(["qubit", "qubit", "num", "reg", "idx", "count"]))
-            c = None
-            if role == "reg":
-                c = d(st.integers(1, maxreg))
-            elif role == "idx":
-                c = d(st.integers(1, maxreg))
+            role = ch.pick(["qubit", "qubit", "num", "reg", "idx", "count"])
+            c = ch.int(1, maxreg) if role in ("reg", "idx") else None
             params.append(pn)
             roles.append((role, c))
         saved = sc.params
         sc.params = dict(zip(params, roles))
         n_sub_before = self.stats.get("subcircuit", 0)
-        calls_sub = [False]
         body = self.block(1, False, False)
         has_sub = self.stats.get("subcircuit", 0) > n_sub_before or _calls_sub_macro(body, sc.macros)
         sc.params = saved
@@ -428,14 +470,10 @@ class Builder:
         sc.macros.append((name, roles, has_sub))
 
     def build(self):
-        from .model import empty_prog
-
-        d, cfg = self.draw, self.cfg
+        ch, cfg = self.ch, self.cfg
         prog = empty_prog()
         self.header(prog)
-        nm = d(st.integers(0, cfg.max_macros))
-        mnames = d(st.lists(st.sampled_from(MACRO_POOL), min_size=nm, max_size=nm, unique=True))
-        for mn in mnames:
+        for mn in ch.sample(MACRO_POOL, ch.int(0, cfg.max_macros)):
             self.macro(prog, mn)
         prog["body"] = self.block_items("top", 0, False, False, cfg.max_body)
         return prog
@@ -443,21 +481,28 @@ class Builder:
 
 def _calls_sub_macro(stmt, macros):
     subm = {m[0] for m in macros if m[2]}
-    from .model import walk
-
     return any(s[0] == "g" and s[1] in subm for s in walk([stmt]))
 
 
+def make_prog(ch, cfg=None):
+    b = Builder(ch, cfg or Cfg())
+    return b.build(), b
+
+
 def progs(cfg=None):
+    """Strategy of {"prog": Prog, "stats": {...}}."""
     cfg = cfg or Cfg()
 
-    @st.composite
-    def _p(draw):
-        b = Builder(draw, cfg)
-        prog = b.build()
+    def mk(seed):
+        prog, b = make_prog(Chooser(seed), cfg)
         return {"prog": prog, "stats": b.stats}
 
-    return _p()
+    return SEEDS.map(mk)
+
+
+def cases(fn):
+    """Strategy from a function fn(ch: Chooser) -> JSON case."""
+    return SEEDS.map(lambda seed: fn(Chooser(seed)))
 
 
 # ------------------------------------------------------------------------------ overrides
@@ -466,8 +511,6 @@ def progs(cfg=None):
 def int_position_lets(prog, natives=None):
     """Names of lets that occur in an integer position (index, size, bound, count, or an
     argument of a native gate parameter declared INT)."""
-    from .model import all_stmts
-
     lets = {n for n, _ in prog["lets"]}
     used = set()
     if natives:
@@ -490,8 +533,7 @@ def int_position_lets(prog, natives=None):
                     used.add(a[2])
         elif s[0] in ("loop", "sub") and isinstance(s[1], str):
             used.add(s[1])
-    # lets passed to macro parameters may reach integer positions: treat any let used as a
-    # macro-call argument as potentially integer-positioned
+    # lets passed to macro parameters may reach integer positions
     mnames = {m["name"] for m in prog["macros"]}
     for s in all_stmts(prog):
         if s[0] == "g" and s[1] in mnames:
@@ -501,20 +543,21 @@ def int_position_lets(prog, natives=None):
     return used & lets
 
 
-def overrides(draw, prog, natives=None):
-    """Draw an override dictionary over a subset of the lets that keeps the program valid
+def overrides(ch, prog, natives=None):
+    """An override dictionary over a subset of the lets that keeps the program valid
     (decided by the reference semantics); invalid candidates are dropped key by key."""
     lets = [n for n, _ in prog["lets"]]
     if not lets:
         return {}
     intpos = int_position_lets(prog, natives)
-    chosen = draw(st.lists(st.sampled_from(lets), unique=True, max_size=len(lets)))
     env = {}
-    for n in chosen:
+    for n in lets:
+        if not ch.bool():
+            continue
         if n in intpos:
-            env[n] = draw(st.integers(0, 7))
+            env[n] = ch.int(0, 7)
         else:
-            env[n] = draw(st.one_of(st.integers(-4, 9), st.sampled_from([0.5, -1.25, 3.0, 1e-06, 2.5e-05]), floats()))
+            env[n] = ch.pick([ch.int(-4, 9), ch.pick([0.5, -1.25, 3.0, 1e-06, 2.5e-05]), ch.float()])
     for n in list(env):
         try:
             Ref(prog, env).validate()
